@@ -561,7 +561,8 @@ func (st *State) builtin(fr *Frame, in ssa.Instruction, b *ssa.Builtin, args []V
 		case *types.Map:
 			st.guardMapAccess(fr, a, false, pos)
 			l := st.mapLen(t, a.C[0])
-			st.assume(fmt.Sprintf("(>= %s 0)", l))
+			st.assume(fmt.Sprintf("(and (>= %s 0) (< %s 1099511627776))", l, l))
+			e.assumeUsed("a Go map holds fewer than 2^40 entries (memory)")
 			st.setResult(fr, in, Val{C: []string{l}})
 		case *types.Array:
 			st.setResult(fr, in, Val{C: []string{fmt.Sprint(t.Len())}})
@@ -698,8 +699,11 @@ func (st *State) appendStructs(fr *Frame, in ssa.Instruction, s, add Val, pos to
 	newLen := fmt.Sprintf("(+ %s %s)", s.C[2], add.C[2])
 	fits := and(fmt.Sprintf("(<= %s %s)", newLen, s.C[3]), not(eq(s.C[0], "0")))
 	freshBase := st.newRef("append")
-	resBase := ite(fits, s.C[0], freshBase)
-	resOff := ite(fits, s.C[1], "0")
+	// named by constants so that they can occur in quantifier patterns (no ite inside a pattern)
+	resBase := st.fresh("appbase", SInt)
+	resOff := st.fresh("appoff", SInt)
+	st.assume(eq(resBase, ite(fits, s.C[0], freshBase)))
+	st.assume(eq(resOff, ite(fits, s.C[1], "0")))
 	resCap := st.fresh("appcap", SInt)
 	st.assume(fmt.Sprintf("(and (>= %s %s) (=> %s (= %s %s)))", resCap, newLen, fits, resCap, s.C[3]))
 	// struct elements live in object fields H|T|f[el(base,i)]: copy = quantified update of each field array
@@ -710,11 +714,16 @@ func (st *State) appendStructs(fr *Frame, in ssa.Instruction, s, add Val, pos to
 		st.havoc(name)
 		na := st.arr(name, arrSort(c.Sort))
 		// elements of the result: old prefix then appended; every other object unchanged
-		st.assume(fmt.Sprintf("(forall ((i Int)) (! (=> (and (<= 0 i) (< i %s)) (= (select %s (el %s (+ %s i))) (select %s (el %s (+ %s i))))) :pattern ((select %s (el %s (+ %s i))))))",
+		st.assume(fmt.Sprintf("(forall ((i Int)) (! (=> (and (<= 0 i) (< i %s)) (= (select %s (el %s (slot %s i))) (select %s (el %s (slot %s i))))) :pattern ((select %s (el %s (slot %s i))))))",
 			s.C[2], na, resBase, resOff, a, s.C[0], s.C[1], na, resBase, resOff))
-		st.assume(fmt.Sprintf("(forall ((i Int)) (! (=> (and (<= 0 i) (< i %s)) (= (select %s (el %s (+ %s (+ %s i)))) (select %s (el %s (+ %s i))))) :pattern ((select %s (el %s (+ %s (+ %s i)))))))",
-			add.C[2], na, resBase, resOff, s.C[2], a, add.C[0], add.C[1], na, resBase, resOff, s.C[2]))
-		st.assume(fmt.Sprintf("(forall ((r Int)) (! (=> (not (and (= (el_base r) %s) (<= %s (el_idx r)) (< (el_idx r) (+ %s %s)))) (= (select %s r) (select %s r))) :pattern ((select %s r))))",
+		if add.C[2] == "1" {
+			// the common case append(s, x): one ground equation, no quantifier
+			st.assume(fmt.Sprintf("(= (select %s (el %s (slot %s %s))) (select %s (el %s (slot %s 0))))", na, resBase, resOff, s.C[2], a, add.C[0], add.C[1]))
+		} else {
+			st.assume(fmt.Sprintf("(forall ((i Int)) (! (=> (and (<= 0 i) (< i %s)) (= (select %s (el %s (slot %s (+ %s i)))) (select %s (el %s (slot %s i))))) :pattern ((select %s (el %s (slot %s (+ %s i)))))))",
+				add.C[2], na, resBase, resOff, s.C[2], a, add.C[0], add.C[1], na, resBase, resOff, s.C[2]))
+		}
+		st.assume(fmt.Sprintf("(forall ((r Int)) (! (=> (not (and (= (el_base r) %s) (<= (slot %s 0) (el_idx r)) (< (el_idx r) (slot %s %s)))) (= (select %s r) (select %s r))) :pattern ((select %s r))))",
 			resBase, resOff, resOff, newLen, na, a, na))
 	}
 	st.assume(fmt.Sprintf("(not (= %s 0))", resBase))
